@@ -321,3 +321,82 @@ func OnceFunc(f func()) func() {
 	var o Once
 	return func() { o.Do(f) }
 }
+
+// Cond mirrors sync.Cond. Condition variables are not modelled by the cooperative
+// scheduler (the instrumenter reports them and the schedule exploration is then
+// skipped), so this type only has to behave like the real one.
+type Cond struct {
+	L    Locker
+	init sync.Once
+	real *sync.Cond
+}
+
+func NewCond(l Locker) *Cond { return &Cond{L: l} }
+
+func (c *Cond) lazy() *sync.Cond {
+	c.init.Do(func() { c.real = sync.NewCond(c.L) })
+	return c.real
+}
+
+func (c *Cond) Wait()      { c.lazy().Wait() }
+func (c *Cond) Signal()    { c.lazy().Signal() }
+func (c *Cond) Broadcast() { c.lazy().Broadcast() }
+
+func (m *RWMutex) TryLock() bool {
+	if !vsched.Active() {
+		return m.real.TryLock()
+	}
+	vsched.SyncPoint(fmt.Sprintf("RWMutex.TryLock %p", m))
+	if m.writer || m.readers > 0 {
+		return false
+	}
+	m.writer = true
+	vsched.Acquire(&m.wclock)
+	vsched.Acquire(&m.rclock)
+	return true
+}
+
+func (m *RWMutex) TryRLock() bool {
+	if !vsched.Active() {
+		return m.real.TryRLock()
+	}
+	vsched.SyncPoint(fmt.Sprintf("RWMutex.TryRLock %p", m))
+	if m.writer {
+		return false
+	}
+	m.readers++
+	vsched.Acquire(&m.wclock)
+	return true
+}
+
+func (m *Map) Swap(k, v interface{}) (interface{}, bool) { m.op("Swap"); return m.real.Swap(k, v) }
+func (m *Map) CompareAndSwap(k, o, n interface{}) bool {
+	m.op("CompareAndSwap")
+	return m.real.CompareAndSwap(k, o, n)
+}
+func (m *Map) CompareAndDelete(k, o interface{}) bool {
+	m.op("CompareAndDelete")
+	return m.real.CompareAndDelete(k, o)
+}
+func (m *Map) Clear() { m.op("Clear"); m.real.Clear() }
+
+// OnceValue mirrors sync.OnceValue.
+func OnceValue[T any](f func() T) func() T {
+	var o Once
+	var v T
+	return func() T {
+		o.Do(func() { v = f() })
+		return v
+	}
+}
+
+// OnceValues mirrors sync.OnceValues.
+func OnceValues[T1, T2 any](f func() (T1, T2)) func() (T1, T2) {
+	var o Once
+	var a T1
+	var b T2
+	return func() (T1, T2) {
+		o.Do(func() { a, b = f() })
+		return a, b
+	}
+}
